@@ -64,20 +64,8 @@ Definition mangle (ns tag field : bytes) : bytes :=
 Definition field_path (outer inner : bytes) : bytes :=
   match outer with [] => inner | _ => outer ++ b_dot :: inner end.
 
-Definition is_nil (v : gval) : bool := match v with GNil => true | _ => false end.
-Definition is_iface (t : pty) : bool := match t with TIface | TSurplus => true | _ => false end.
-
-(* reflect.ValueOf(x) is the zero Value exactly when x is a nil interface: a nil decoded into interface{} *)
-Fixpoint zero_value_at (ts : list pty) (vs : list gval) : bool :=
-  match ts, vs with
-  | t :: tr, v :: vr => (is_iface t && is_nil v) || zero_value_at tr vr
-  | _, _ => false
-  end.
-
-Definition msg_makefunc_zero : bytes := Eval compute in bs "reflect: function created by MakeFunc using closure returned zero Value"%string.
 Definition msg_too_few : bytes := Eval compute in bs "reflect: Call with too few input arguments"%string.
 Definition msg_too_many : bytes := Eval compute in bs "reflect: Call with too many input arguments"%string.
-Definition msg_zero_arg : bytes := Eval compute in bs "reflect: Call using zero Value argument"%string.
 
 (* what the caller of a remote call gets *)
 Inductive rres :=
@@ -129,14 +117,12 @@ Definition execute (m : method) (name : bytes) (args : list gval) : xres * log :
     let a := [GString name; GSlice args] in
     of_fout (m_id m) a (impl (m_id m) a)
   else
-    (* f.Call(in): reflect checks the argument count and every argument Value before the function runs *)
+    (* f.Call(in): reflect checks the argument count before the function runs; a nil argument is handed over
+       as the zero value of its parameter type (for an interface{} parameter: nil) *)
     match arity m (length args) with
     | Lt => (XErr (EPanicE msg_too_few stack), [])
     | Gt => (XErr (EPanicE msg_too_many stack), [])
-    | Eq =>
-        if zero_value_at (param_types m (length args)) args
-        then (XErr (EPanicE msg_zero_arg stack), [])
-        else of_fout (m_id m) args (impl (m_id m) args)
+    | Eq => of_fout (m_id m) args (impl (m_id m) args)
     end.
 
 Definition invalid_request_pre : bytes := Eval compute in bs "hprose/rpc/core: invalid request:"%string.
@@ -153,13 +139,6 @@ Definition handle (o : sopts) (svc : registry) (rh : headers) (req : bytes) : op
     end in
   match fst (service_decode lower io_dec io_dec_hdrs o svc req) with
   | SDOk r =>
-      let '(x, l) := execute (rq_method r) (rq_name r) (rq_args r) in
-      match x with
-      | XRes vs => reply (inl (shape vs)) l
-      | XErr e => reply (inr e) l
-      end
-  | SDDirty r =>
-      (* Decode reported no error: the call is executed although the headers were not understood *)
       let '(x, l) := execute (rq_method r) (rq_name r) (rq_args r) in
       match x with
       | XRes vs => reply (inl (shape vs)) l
@@ -205,14 +184,13 @@ Definition invoke (co : copts) (so : sopts) (svc : registry) (rh : headers)
   end.
 
 (* proxyBuilder.out / method: results copied into the declared slots, zero values for the rest, the error slot;
-   without an error slot an error becomes a panic in the caller; reflect.ValueOf(nil) in a slot makes MakeFunc panic *)
+   without an error slot an error becomes a panic in the caller; a nil result is the zero value of its slot *)
 Definition proxy_out (s : psig) (r : rres) : pout :=
   match r with
   | RRes vs =>
       let n := length (p_outs s) in
       let m := Nat.min (length vs) n in
-      if zero_value_at (firstn m (p_outs s)) (firstn m vs) then PPanic msg_makefunc_zero
-      else PRet (firstn m vs ++ map zero (skipn m (p_outs s))) None
+      PRet (firstn m vs ++ map zero (skipn m (p_outs s))) None
   | RErr msg _ =>
       if p_err s then PRet (map zero (p_outs s)) (Some msg)
       else PPanic msg                                   (* panic(err) *)
